@@ -141,12 +141,13 @@ type Exec struct {
 	linking       bool
 	skipped       map[string]bool
 	inEvent       bool
+	axiomSkipped  map[string]int
 }
 
 func NewExec(w *World, c *Ctx) *Exec {
 	return &Exec{w: w, c: c, obls: map[string]*Obligation{}, usedContract: map[string]bool{}, inlined: map[string]bool{},
 		observers: map[string]bool{}, havocked: map[string]bool{}, closures: map[string]*closure{}, boundMethods: map[string]*boundMethod{},
-		heapPureCache: map[string]int{}, recDefining: map[string]bool{}, skipped: map[string]bool{}}
+		heapPureCache: map[string]int{}, recDefining: map[string]bool{}, skipped: map[string]bool{}, axiomSkipped: map[string]int{}}
 }
 
 func (ex *Exec) note(format string, args ...any) {
